@@ -2,6 +2,7 @@ import numpy as np
 
 from visions.backends.numpy import test_utils
 from visions.backends.numpy.array_utils import array_handle_nulls, array_not_empty
+from visions.backends.shared.nan_handling import nan_mask
 from visions.types.complex import Complex
 from visions.types.float import Float
 from visions.types.string import String
@@ -28,7 +29,11 @@ def string_is_float(array: np.ndarray, state: dict) -> bool:
 
 @Float.register_transformer(String, np.ndarray)
 def string_to_float(array: np.array, state: dict) -> np.ndarray:
-    return array.astype(float)
+    # only the values are parsed: astype(float) raises on pd.NA / NaT among the strings
+    mask = nan_mask(array)
+    result = np.full(array.shape, np.nan, dtype=float)
+    result[mask] = array[mask].astype(float)
+    return result
 
 
 @Float.register_relationship(Complex, np.ndarray)
